@@ -429,25 +429,32 @@ func checkHPKE(t *rapid.T, c *hpkeCase, pt, info []byte) int {
 			r.mustReject("ref-info-as-aad", cat(prefix, enc2, asAAD), info)
 		}
 	}
-	// the same suite with one identifier changed (only the key schedule's suite_id differs)
+	// the same suite with one identifier changed (the KEM part is the same, the key schedule's
+	// suite_id - and with it key and base nonce - differs): EVERY other AEAD id and EVERY other KDF
+	// id, each as a complete reference ciphertext under a fresh reference encapsulation to this
+	// public key. (Until the audit only the first other id of each list was tried, so e.g. a
+	// ChaCha20-Poly1305 key was never offered an AES-256-GCM ciphertext.)
+	neighbour := func(kind string, s2 hpkeref.Suite) {
+		e, b, err := hpkeref.Seal(s2, c.pk, info, pt, nil)
+		if err != nil {
+			t.Fatalf("%s\nreference Seal under the neighbouring suite %v: %v", desc(), s2, err)
+		}
+		r.mustReject(kind, cat(prefix, e, b), info)
+	}
 	for _, other := range aeadSpecs {
 		if other.ref != c.aead.ref {
 			s2 := c.suite
 			s2.AEAD = other.ref
-			if e, b, err := hpkeref.Seal(s2, c.pk, info, pt, nil); err == nil {
-				r.mustReject("ref-other-aead-id", cat(prefix, e, b), info)
-			}
-			break
+			neighbour("ref-other-aead-id:"+other.name, s2)
+			evid.Add("other_aead_id/"+c.aead.name+"->"+other.name, 1)
 		}
 	}
 	for _, other := range kdfSpecs {
 		if other.ref != c.kdf.ref {
 			s2 := c.suite
 			s2.KDF = other.ref
-			if e, b, err := hpkeref.Seal(s2, c.pk, info, pt, nil); err == nil {
-				r.mustReject("ref-other-kdf-id", cat(prefix, e, b), info)
-			}
-			break
+			neighbour("ref-other-kdf-id:"+other.name, s2)
+			evid.Add("other_kdf_id/"+c.kdf.name+"->"+other.name, 1)
 		}
 	}
 	// another recipient's private key, same parameters and prefix
